@@ -3,6 +3,19 @@ from dvc.contracts import contract
 import specs.dtw  # noqa: F401
 import specs.bounds  # noqa: F401
 
+for _cls, _res in (('SquaredEuclideanNdim', 'InnerNd(x, 0, y, 0, NdimOf(x))'), ('EuclideanNdim', 'vsqrt(InnerNd(x, 0, y, 0, NdimOf(x)))')):
+    contract(
+        'innerdistance.%s.inner_dist' % _cls,
+        params={'x': 'series', 'y': 'series'},
+        requires=['NdimOf(x) >= 1', 'NdimOf(x) == NdimOf(y)'],
+        ensures=['result == ' + _res],
+        returns='val',
+        trusted=True,
+        props=('C11',),
+        note='A3: np.sum((x - y) ** 2) over the values of two points = left-to-right sum of the squared differences '
+             '(np.sqrt of it for the Euclidean variant)',
+    )
+
 KW = {'window': 'opt:int', 'penalty': 'opt:val', 'max_step': 'opt:val', 'max_length_diff': 'opt:int'}
 
 
@@ -21,7 +34,7 @@ P2B = '(0 if kwargs["psi"] is None else (kwargs["psi"][2] if type(kwargs["psi"])
 P1E = '(0 if kwargs["psi"] is None else (kwargs["psi"][1] if type(kwargs["psi"]) is tuple else kwargs["psi"]))'
 P2E = '(0 if kwargs["psi"] is None else (kwargs["psi"][3] if type(kwargs["psi"]) is tuple else kwargs["psi"]))'
 METRIC = '(0 if kwargs["inner_dist"] == "squared euclidean" else 1)'
-CTX = 'DTWctx(s1, s2, kwargs["window"], kwargs["penalty"], kwargs["max_step"], %s, %s, %s)' % (P1B, P2B, METRIC)
+CTX = 'DTWctx(s1, s2, kwargs["window"], kwargs["penalty"], kwargs["max_step"], %s, %s, %s, NdimOf(s1))' % (P1B, P2B, METRIC)
 
 ROWS_DONE = ('forall(lambda a, b: implies(0 <= a <= {upto} and 0 <= b <= %s, dtw[a, b] == W(a, b)))' % C)
 ROWS_TODO = ('forall(lambda a, b: implies({frm} < a <= %s and 0 <= b <= %s, '
@@ -89,6 +102,15 @@ D_SETTLED = ['s.window == Wnd()', 's.adj_penalty == Pen()', 's.adj_max_step == M
              'r == %s' % R, 'c == %s' % C, 'sc == 0', 'length == %s' % LEN, 'nelems(dtw) == 2 * length',
              's.window >= 1', 'r >= 1', 'c >= 1', '(i0 == 0 and i1 == 1) or (i0 == 1 and i1 == 0)']
 
+def nd_cases():
+    out = []
+    for il, inner, m in (('sq', 'squared euclidean', 0), ('eu', 'euclidean', 1)):
+        kw = dict(KW, inner_dist=('const', inner), psi=('tuple', 'nat', 'nat', 'nat', 'nat'), use_ndim=('const', True))
+        out.append(dict(label='%s/ndim' % il, params={'kwargs': kw, 's1': 'series_nd', 's2': 'series_nd'},
+                        requires=['NdimOf(s1) == NdimOf(s2)'], metric=m, psi='psi4'))
+    return out
+
+
 contract(
     'dtw.distance',
     params={'s1': 'series', 's2': 'series', 'only_ub': ('const', False), 'kwargs': KW},
@@ -140,3 +162,13 @@ contract(
     order_axioms=True,
     props=('C01', 'C20'),
 )
+
+
+# the same contract restricted to the multivariate cases (C11)
+import copy as _copy  # noqa: E402
+from dvc.contracts import CONTRACTS as _CT  # noqa: E402
+_nd = _copy.copy(_CT['dtw.distance'])
+_nd.name = 'dtw.distance#ndim'
+_nd.cases = nd_cases()
+_nd.props = ('C11', 'C01')
+_CT['dtw.distance#ndim'] = _nd
